@@ -29,5 +29,12 @@ def contig_jobs(tier, prop):
                       bound='%d dimensions of length 1..%d, counts 0..length, kind (fixed / only record variable / one of several record variables) symbolic' % (nd, 6 if tier == 'quick' else 12)))
     return js
 
+def dtype_jobs(tier, prop):
+    return [Job('%s/ncmpii_dtype_decode/subarray_ndim%d' % (prop, nd), prop, ['src/drivers/common/dtype_decode.c', 'src/drivers/common/error_mpi2nc.c'], 'C01_dtype.c', enforce='ncmpii_dtype_decode', enforce_rec=True,
+                defines=['-DNDIM=%d' % nd], tu_defines=['-include', '/verif/stubs/noprintf.h'], canaries=['noncontiguous', 'several_elements'], unwind=12, kind='bounded', timeout=300,
+                bound='MPI_Type_create_subarray over MPI_INT with %d dimensions, sizes 1..1000, subsizes and starts symbolic, C or Fortran order' % nd,
+                assumptions=['ncmpii_dtype_decode: MPI_Type_get_envelope / get_contents / size / free are harness stubs describing one subarray type over MPI_INT; the recursive call on the element type is assumed to satisfy the contract being enforced (--enforce-contract-rec)'])
+            for nd in ((2,) if tier == 'quick' else (1, 2, 3))]
+
 def jobs(tier, ws):
-    return offset_jobs(tier, 'C01') + contig_jobs(tier, 'C01')
+    return offset_jobs(tier, 'C01') + contig_jobs(tier, 'C01') + dtype_jobs(tier, 'C01')
